@@ -393,15 +393,18 @@ class Gen:
         n = self.r.choice([1, 2, 3]) if game != "o2j" else 3
         ops, names = [], []
         shared_bpms = None
+        inner = game
+        if game == "base":
+            inner = self.r.choice(["base", "osu", "osu", "qua", "bms"])
         for i in range(n):
-            lists, meta, keys = gen_chart(self.d, game, self.hi, keys=7 if game == "o2j" else None)
+            lists, meta, keys = gen_chart(self.d, inner, self.hi, keys=7 if game == "o2j" else None)
             if game == "sm":
                 if shared_bpms is None:
                     shared_bpms = lists["bpms"]
                 lists["bpms"] = [dict(b) for b in shared_bpms]
             nm = self.new_h()
             names.append(nm)
-            ops.append(self.mk("map.new", game=game, lists=lists, meta=meta, how="items", out=nm, keys=keys))
+            ops.append(self.mk("map.new", game=inner, lists=lists, meta=meta, how="items", out=nm, keys=keys))
         ops.append(self.mk("mapset.new", game=game, maps=names, meta=gen_set_meta(self.d, game), out=self.new_h()))
         return ops
 
@@ -498,7 +501,8 @@ class Gen:
             return None
         inc = None
         if h.kind == "map" and self.r.random() < 0.3:
-            inc = self.r.choice([["notes"], ["hits"], ["holds"], ["bpms"], ["hits", "holds"], ["notes", "bpms"]])
+            inc = self.r.choice([["notes"], ["hits"], ["holds"], ["bpms"], ["hits", "holds"], ["notes", "bpms"],
+                                 ["holds", "hits"], ["bpms", "notes"], ["bpms", "hits"], ["notes", "holds"], ["hits", "notes"]])
         return self.mk("map.stack", h=h.name, include=inc, out=self.new_h())
 
     def _fresh_stackers(self, okind=None):
@@ -651,6 +655,18 @@ class Gen:
         h = self.pick("map", pred=self._rate_ok)
         return h and self.mk("map.describe", h=h.name)
 
+    def p_append_cross(self):
+        """append a list of the BASE class (fewer columns) to a game list: the result has NaN there, the argument stays as it was"""
+        h = self.pick("list", pred=lambda x: x.meta.get("cls") in fields.LISTS and fields.role(x.meta["cls"]) in ("hit", "hold", "bpm")
+                      and x.meta["cls"] not in ("HitList", "HoldList", "BpmList") and set(x.obj.df.columns) == set(fields.declared(x.meta["cls"])))
+        if not h:
+            return None
+        base = {"hit": "HitList", "hold": "HoldList", "bpm": "BpmList"}[fields.role(h.meta["cls"])]
+        x = self.new_h()
+        rows = gen_rows(self.d, base, self.d.choice([1, 2, 3]), h.meta.get("keys", 4))
+        return [self.mk("list.new", cls=base, how=self.d.choice(["items", "df"]), rows=rows, out=x, keys=h.meta.get("keys", 4)),
+                self.mk("list.append", h=h.name, x=x, form=self.r.choice(["obj", "pandas"]), sort=self.r.random() < 0.3, out=self.new_h())]
+
     def p_copy_then_mutate(self):
         """a result documented as a copy is edited in place right away (C14: no shared mutable state), including
         the corner cases where nothing had to be copied: empty operands, all-true masks, already sorted lists"""
@@ -737,7 +753,7 @@ class GenC14(Gen):
                  move=4, list_deepcopy=3, bpm_query=4, col_arith=3, setitem=1,
                  map_new=8, mapset_new=3, mapset_get_map=1, map_get_list=4, map_assign_list=2, map_edit_list=3,
                  map_deepcopy=4, rate=5, stack=2, stack_read=2, stack_assign=2, stack_loc=1, convert=7,
-                 full_ln=4, hitsound_copy=3, analysis=7, pattern=3, describe=2, mutate_result=8, copy_then_mutate=8)
+                 full_ln=4, hitsound_copy=3, analysis=7, pattern=3, describe=2, mutate_result=8, copy_then_mutate=8, append_cross=3)
 
 
 class GenC12(Gen):
